@@ -47,7 +47,7 @@ def run_shard(spec, acc):
                 acc.sample({'kind': 'pcm', 'seed_holdings': case['seed_holdings'], 'long_only': case['long_only'],
                             'steps': [{k: s[k] for k in ('universe', 'weights', 'keys_mode')} for s in case['steps'][:3]]})
         else:
-            cfg = sesswl.gen_cfg(rng, alpha_kinds=('fixed', 'single', 'topn_mom', 'sma_trend', 'inv_vol', 'mom_sign'),
+            cfg = sesswl.gen_cfg(rng, alpha_kinds=('fixed', 'single', 'topn_mom', 'sma_trend', 'inv_vol', 'mom_sign', 'switch', 'switch'),
                                  universe_kinds=('static', 'dynamic'), max_days=60 if spec['tier'] == 'quick' else 200)
             tr, _ = sesswl.run_case(cfg, acc, PROP)
             if any(r['orders'] for r in tr.pcm if r['orders'] is not None) and len(tr.pcm) >= 2:
